@@ -85,6 +85,9 @@ SizeClass(s, nv, keys, p) ==
     [] s = "ligero_uni" -> IF p.cls = "zero" /\ LigeroZeroPolyPanics THEN "panics" ELSE "ok"
     [] s = "hyrax" -> IF p.cls = "nv" /\ p.deg # nv THEN "refuse" ELSE "ok"
     [] s = "brakedown" -> IF p.cls = "nv" /\ p.deg # nv THEN "any" ELSE "ok"
+    \* multilinear Ligero has no number of variables in its keys; the harness only has points of
+    \* the session's size, so other sizes are left unconstrained here
+    [] s = "ligero_ml" -> IF p.cls = "nv" /\ p.deg # nv THEN "any" ELSE "ok"
     [] OTHER -> "ok"
 
 Worst(S) == IF "refuse" \in S THEN "refuse"
